@@ -367,6 +367,8 @@ def gen_index(rng, grid, maxn=14):
     mode = rng.random()
     if mode < 0.08:
         return []
+    if mode > 0.97 and grid == 'h':
+        return sorted(rng.sample(range(span), rng.randint(40, span)))        # a few long series in every tier
     return sorted(rng.sample(range(span), rng.randint(1, maxn)))
 
 
